@@ -1,0 +1,92 @@
+//go:build verif
+
+package controller
+
+import (
+	"github.com/markusressel/fan2go/internal/fans"
+)
+
+// Verification hooks (build tag "verif"): trace points at the action boundaries of
+// the controller and accessors to its unexported state and steps.
+
+// VerifTrace, when set, receives one event per controller action.
+var VerifTrace func(fanId string, event string, args ...int)
+
+func verifTrace(fanId string, event string, args ...int) {
+	if h := VerifTrace; h != nil {
+		h(fanId, event, args...)
+	}
+}
+
+func verifErr(err error) int {
+	if err != nil {
+		return 1
+	}
+	return 0
+}
+
+// VerifControllerState is a projection of the controller's private state.
+type VerifControllerState struct {
+	// LastSetPwm is -1 when no pwm has been set yet
+	LastSetPwm         int
+	MinPwmOffset       int
+	PwmMap             map[int]int
+	DistinctPwmValues  []int
+	OriginalPwmValue   int
+	OriginalPwmEnabled int
+	Stats              FanControllerStatistics
+}
+
+func (f *DefaultFanController) VerifState() VerifControllerState {
+	last := -1
+	if f.lastSetPwm != nil {
+		last = *f.lastSetPwm
+	}
+	var m map[int]int
+	if f.pwmMap != nil {
+		m = make(map[int]int, len(f.pwmMap))
+		for k, v := range f.pwmMap {
+			m[k] = v
+		}
+	}
+	return VerifControllerState{
+		LastSetPwm:         last,
+		MinPwmOffset:       f.minPwmOffset,
+		PwmMap:             m,
+		DistinctPwmValues:  append([]int{}, f.pwmValuesWithDistinctTarget...),
+		OriginalPwmValue:   f.originalPwmValue,
+		OriginalPwmEnabled: int(f.originalPwmEnabled),
+		Stats:              f.stats,
+	}
+}
+
+// VerifSetPwmMap installs a pwm map as if it had been computed or loaded
+func (f *DefaultFanController) VerifSetPwmMap(pwmMap map[int]int) {
+	f.pwmMap = pwmMap
+	f.updateDistinctPwmValues()
+}
+
+func (f *DefaultFanController) VerifCalculateTargetPwm() (int, error) {
+	return f.calculateTargetPwm()
+}
+
+func (f *DefaultFanController) VerifSetPwm(target int) error {
+	return f.setPwm(target)
+}
+
+func (f *DefaultFanController) VerifMeasureRpm() {
+	f.measureRpm(f.fan)
+}
+
+func (f *DefaultFanController) VerifRestore() {
+	f.restorePwmEnabled()
+}
+
+func (f *DefaultFanController) VerifCaptureOriginal(pwm int, mode int) {
+	f.originalPwmValue = pwm
+	f.originalPwmEnabled = fans.ControlMode(mode)
+}
+
+func (f *DefaultFanController) VerifComputePwmMap() error {
+	return f.computePwmMap()
+}
